@@ -10,6 +10,7 @@ pub fn exec(plan: &Plan, mode: Mode) -> Result<CaseReport, Failure> {
     let mut obs = SnapshotObserver::default();
     let mut fin = run_plan(plan, mode, &mut obs)?;
     let mut ttl_checked = 0u64;
+    let mut rolled_first = 0u64;
     let r = (|| -> Result<(), Failure> {
         let actors = fin.world.actors();
         for &m in &actors {
@@ -26,6 +27,16 @@ pub fn exec(plan: &Plan, mode: Mode) -> Result<CaseReport, Failure> {
                 std::thread::sleep(std::time::Duration::from_millis(2100));
                 for m in sql {
                     let before = list_snapshots(&fin.world, m).unwrap_or_default();
+                    // every other client first rolls its storage back to its newest snapshot: the
+                    // snapshots that survive a rollback are as old as before
+                    if m % 2 == 0 && before.len() >= 2 {
+                        use mdk_storage_traits::MdkStorageProvider;
+                        use openmls_traits::OpenMlsProvider;
+                        let name = before.last().unwrap().0.clone();
+                        let gid = fin.world.gid.clone();
+                        let _ = crate::on_mdk!(fin.world.clients[m].mdk(), mm => mm.provider.storage().rollback_group_to_snapshot(&gid, &name));
+                        rolled_first += 1;
+                    }
                     fin.world.restart(m)?;
                     let after = list_snapshots(&fin.world, m).map_err(|e| Failure::new("snapshot-listing-failed", e))?;
                     ttl_checked += 1;
@@ -58,6 +69,7 @@ pub fn exec(plan: &Plan, mode: Mode) -> Result<CaseReport, Failure> {
     rep.classes.push(if max_epoch >= 10 { "two-digit-epoch-reached".to_string() } else { format!("max-epoch-{max_epoch}") });
     *rep.counters.entry("snapshot-list-checks".into()).or_insert(0) += obs.checks;
     *rep.counters.entry("ttl-startup-checks".into()).or_insert(0) += ttl_checked;
+    *rep.counters.entry("ttl-startup-checks-right-after-a-rollback".into()).or_insert(0) += rolled_first;
     Ok(rep)
 }
 
@@ -68,6 +80,8 @@ pub fn main(args: &Args) -> i32 {
     };
     let mut cfgs = vec![Cfg::default(); 7];
     cfgs.push(Cfg { ttl: 1, ..Cfg::default() });
+    // "never expire": nothing may be pruned at start-up
+    cfgs.push(Cfg { ttl: u64::MAX, ..Cfg::default() });
     let opts = SetupOpts {
         min_members: 2,
         max_members: 4,
